@@ -9,7 +9,7 @@ import numpy as np
 sys.path.insert(0, os.path.dirname(os.path.dirname(os.path.abspath(__file__))))
 import common as C  # noqa: E402
 import exedriver    # noqa: E402
-from props.c19 import fl, parse, relerr, bits, TOL_MODEL, KSE, bs_closed, battery, tcrit  # noqa: E402
+from props.c19 import fl, parse, relerr, bits, TOL_MODEL, KSE, bs_closed, battery, battery_schemes, tcrit  # noqa: E402
 
 
 def fp():
@@ -260,6 +260,21 @@ def correspondence(ctx, enabled, quick):
                 add(f'LMM {n} {fl(gam)} {fl(fwd0)} {fl(taus)} {fl(sgn * gm[ip, :n - 1])}', 'lmm_simulate_fwds_1f', ref,
                     dict(fn='lmm_simulate_fwds_1f', num_fwds=n, num_paths=npth, fwd0=fwd0.tolist(), gammas=gam.tolist(), taus=taus.tolist(), use_sobol=0, seed=seed,
                          path=ip + (npth // 2) * a_))
+        # ---- LMM multi-factor: one predictor-corrector pass per path on the regenerated draws, NON-uniform accruals
+        seed_mf = seed_()
+        nfac = rng.randint(1, 3)
+        lam = np.array([[0.0] + [rng.uniform(-0.1, 0.3) for _ in range(n - 1)] for _ in range(nfac)])
+        taus_mf = np.array([rng.choice([0.25, 0.5, 1.0]) for _ in range(n)])
+        taus_mf[1], taus_mf[2] = 0.25, 1.0
+        Fm = L.lmm_simulate_fwds_mf(n, nfac, npth, 0, fwd0, lam, taus_mf, 0, seed_mf)
+        np.random.seed(seed_mf)
+        gmf = np.array([[[np.random.normal() for _ in range(nfac)] for _ in range(n)] for _ in range(npth // 2)]).reshape(npth // 2, n, nfac)
+        for ip in range(npth // 2):
+            for a_, sgn in enumerate((1.0, -1.0)):
+                ref = np.concatenate([Fm[ip + (npth // 2) * a_, j, j:] for j in range(n)])
+                add(f'LMMF {n} {nfac} {fl(lam)} {fl(fwd0)} {fl(taus_mf)} {fl(sgn * gmf[ip, :n - 1, :])}', 'lmm_simulate_fwds_mf', ref,
+                    dict(fn='lmm_simulate_fwds_mf', num_fwds=n, num_factors=nfac, num_paths=npth, fwd0=fwd0.tolist(), lambdas=lam.tolist(), taus=taus_mf.tolist(),
+                         use_sobol=0, seed=seed_mf, path=ip + (npth // 2) * a_))
         # ---- lmm_cap_flr_pricer (as repaired) on these paths
         for is_cap in (1, 0):
             kk = float(fwd0.mean())
@@ -359,10 +374,27 @@ def perturb_global_rng(k):
 
 
 def reproducibility(ctx, bseeds, procs, quick):
+    sch_fwd = battery_schemes(bseeds)                   # scheme A then scheme B then ..., same seed and numbers
+    sch_rev = battery_schemes(bseeds, reverse=True)      # ... B then A
+    sch_again = battery_schemes(bseeds)
+    d_rev_s, d_again_s = dict(sch_rev), dict(sch_again)
+    for name, b in sch_fwd:
+        if d_again_s[name] != b:
+            ctx.violation('same scheme, same seed, same parameters, second pass over the scheme enums returns different bits',
+                          {'routine': name, 'seeds': bseeds, 'battery': 'props/c19.py:battery_schemes'}, clause='same-seed-same-bits')
+        elif d_rev_s[name] != b:
+            ctx.violation('same seed and parameters, but the result depends on which scheme enum was simulated BEFORE it (calls made in enum order '
+                          'vs reversed enum order in the same interpreter): paths of an earlier call are re-used under a key that omits the scheme',
+                          {'routine': name, 'seeds': bseeds, 'order_1': [n for n, _ in sch_fwd if n.split('.')[:2] == name.split('.')[:2]][:6],
+                           'battery': 'props/c19.py:battery_schemes(reverse=True)'}, clause='history-independent')
+    ctx.count('reproducibility:scheme-order', 3 * len(sch_fwd), 3 * len(sch_fwd), sample={'routines': [n for n, _ in sch_fwd[:4]]})
     base = battery(bseeds)
     again = battery(bseeds, pre=perturb_global_rng)     # both hidden generators are left in another state before EVERY call
     perturb_global_rng(2)
     rev = battery(bseeds[::-1])           # other order of calls, other history
+    base = base + sch_fwd
+    again = again + sch_again
+    rev = rev + sch_fwd
     names = [n for n, _ in base]
     d_again = dict(again)
     d_rev = dict(rev)
@@ -418,7 +450,7 @@ def reproducibility(ctx, bseeds, procs, quick):
                 continue
             nd += 1
             if nd <= 2:
-                ctx.violation('same seed gives different results in two fresh processes that differ only in their thread settings',
+                ctx.violation('same seed gives different results in two fresh processes that differ only in their thread settings and in the ORDER in which the scheme enums are simulated',
                               {'routine': name, 'seeds': bseeds, 'settings': tags, 'max_rel_diff': rel}, clause='thread-count-independent')
     ctx.count('reproducibility:subprocess:thread-settings', len(base), len(base))
     # (b) fresh process vs this process: identical up to JIT code generation.  MEASURED: with a cold Numba cache the
@@ -517,6 +549,43 @@ def structure_oracles(ctx, quick):
                               dict(fn='lmm_simulate_fwds_1f', num_fwds=n, fwd0=fwd0.tolist(), gammas=gam.tolist(), taus=taus.tolist(), seed=seed, step=j),
                               clause='antithetic-pair-product')
                 break
+        # LMM predictor-corrector step, documented formula (Hull 32.14 with the accrual tau_i of forward i in BOTH drift sums), recomputed
+        # with NumPy from the routine's own previous-step forwards and the regenerated draws, NON-uniform accruals — exact, no statistics
+        nfac = rng.randint(1, 3)
+        lam = np.array([[0.0] + [rng.uniform(-0.1, 0.3) for _ in range(n - 1)] for _ in range(nfac)])
+        taus_n = np.array([rng.choice([0.25, 0.5, 1.0]) for _ in range(n)])
+        taus_n[1], taus_n[2] = 0.25, 1.0
+        for simname in ('lmm_simulate_fwds_mf', 'lmm_simulate_fwds_1f'):
+            if simname == 'lmm_simulate_fwds_mf':
+                lam_, nf_ = lam, nfac
+                Fs = L.lmm_simulate_fwds_mf(n, nf_, 4, 0, fwd0, lam_, taus_n, 0, seed)
+            else:
+                lam_, nf_ = gam[None, :], 1
+                Fs = L.lmm_simulate_fwds_1f(n, 4, 0, fwd0, gam, taus_n, 0, seed)
+            np.random.seed(seed)
+            gd = np.array([[[np.random.normal() for _ in range(nf_)] for _ in range(n)] for _ in range(2)]).reshape(2, n, nf_)
+            bad = None
+            for ip in range(4):
+                gpath = gd[ip % 2] * (1.0 if ip < 2 else -1.0)
+                for j in range(n - 1):
+                    for k in range(j + 1, n):
+                        lk = lam_[:, k - j]
+                        idx = np.arange(j + 1, k + 1)
+                        zz = lam_[:, idx - j].T @ lk
+                        fi = Fs[ip, j, idx]
+                        mu_a = float(np.sum(fi * taus_n[idx] * zz / (1.0 + fi * taus_n[idx])))
+                        ito = float(lk @ lk)
+                        rnd = float(lk @ gpath[j]) * math.sqrt(taus_n[j])
+                        f_b = Fs[ip, j, k] * math.exp(mu_a * taus_n[j] - 0.5 * ito * taus_n[j] + rnd)
+                        mu_b = float(np.sum(f_b * taus_n[idx] * zz / (1.0 + f_b * taus_n[idx])))
+                        want = Fs[ip, j, k] * math.exp(0.5 * (mu_a + mu_b) * taus_n[j] - 0.5 * ito * taus_n[j] + rnd)
+                        if bad is None and not abs(Fs[ip, j + 1, k] - want) <= 1e-11 * abs(want):
+                            bad = dict(path=ip, time_step=j, forward=k, returned=float(Fs[ip, j + 1, k]), documented_step=want)
+            if bad:
+                ctx.violation(f'{simname}: one predictor-corrector step of a forward is not the documented drift step (accrual tau_i of forward i in both drift '
+                              'sums, Ito term, factor draws) applied to its own previous forwards',
+                              dict(bad, fn=simname, num_fwds=n, num_paths=4, fwd0=fwd0.tolist(), taus=taus_n.tolist(),
+                                   lambdas=lam_.tolist(), use_sobol=0, seed=seed), clause='lmm-drift-step')
         # default time inverse identity (theorem uniformToDefaultTime_inverse)
         m = rng.randint(2, 7)
         ts = np.concatenate([[0.0], np.cumsum([rng.uniform(0.3, 2.0) for _ in range(m)])])
@@ -1333,7 +1402,9 @@ def lmm_stats(ctx, st, quick):
     n_eval = 0
     n = 6
     fwd0 = np.array([rng.uniform(0.03, 0.06) for _ in range(n)])
-    taus = np.full(n, rng.choice([0.5, 1.0]))
+    taus = np.array([rng.choice([0.25, 0.5, 1.0]) for _ in range(n)])     # mixed 3M/6M/1Y accruals: taus[i] != taus[k] matters in the drift sums
+    if len(set(taus.tolist())) == 1:
+        taus[rng.randrange(1, n)] = 0.25 if taus[0] != 0.25 else 1.0
     gam = np.array([0.0] + [rng.uniform(0.12, 0.25) for _ in range(n - 1)])
     P0 = np.cumprod(1.0 / (1.0 + fwd0 * taus))           # P(0, T_{k+1})
     K = float(fwd0.mean())
@@ -1559,6 +1630,34 @@ def default_time_stats(ctx, st, quick):
                 st.ztest(f'default_times.{name}', f'{name}: empirical survival frequency of the simulated default times differs from the input survival curve',
                          smp, qref, dict(fn=name, credit=ic, t=float(tq), times=c._times.tolist(), survival=c._values.tolist(), correlation=rho, num_trials=nt, seed=seed),
                          bias=3e-7, clause='survival-curve')
+    # ---- C17's oracles for the Monte-Carlo default times (this property's anchors name student_t_copula.py / gauss_copula.py): the
+    # deterministic CDF tie (latents replayed from the seed, u read back from tau, compared with the law of g: Student-t with the GIVEN
+    # degrees of freedom on both sides of 30, or normal) and the exact binomial marginal test on bootstrapped CDS curves
+    from props import c17_samplers as S17
+    rng2 = ctx.rng('default-times-c17')
+    for kind, dof in [('t', d_) for d_ in S17.DOFS] + [('g', None)]:
+        n_names = rng2.choice([1, 2, 3])
+        spreads, recovery, crv = S17.sample_curves(rng2, n_names)
+        rho2 = rng2.choice(S17.RHOS) if n_names > 1 else 0.0
+        trials = 4000 if quick else 20000
+        cs = S17.make_case(kind, spreads, recovery, rho2, dof, trials, rng2.randint(1, 2 ** 31 - 1))
+        taus_ = S17.try_sampler(ctx, np, cs, crv)
+        n_eval += 1
+        if taus_ is None:
+            continue
+        tie = S17.cdf_tie(np, cs, curves=crv, taus=taus_)
+        if tie['status'] == 'mismatch':
+            ctx.violation(f'{cs["fn"]}: the uniform behind a simulated default time is not the distribution function of its latent variable '
+                          '(Student-t with the given degrees of freedom / normal): the marginal default probability at that horizon is wrong',
+                          dict(cs, worst_abs_diff=tie['worst'], witness=tie.get('witness')), clause='survival-curve')
+        elif tie['status'] != 'ok':
+            ctx.broke(f'correspondence {cs["fn"]}: latent variables could not be replayed from the seed ({tie["status"]}) at ' + json.dumps(cs, default=str)[:400])
+        fails, worst_z, ncmp = S17.marginals(np, cs, curves=crv, taus=taus_)
+        st.n_tests += ncmp
+        st.see('default_times.c17-marginals.' + kind, worst_z / 5.7)
+        if fails:
+            ctx.violation(f'{cs["fn"]}: number of simulated defaults before a horizon is outside the exact binomial law of the input survival curve',
+                          dict(cs, failures=fails[:3]), clause='survival-curve')
     ctx.count('default_times', n_eval, n_eval, sample={'fn': 'default_times_gc', 'num_credits': nc, 'num_trials': ntr})
 
 
